@@ -272,6 +272,19 @@ func runC18(p *Prog, l *Ledger) {
 				return true
 			}
 			fr, _, ok := loadedField(strip(rv[0], false))
+			if !ok {
+				// the returned value is the local that was just stored into the field
+				pa.Each(func(step int, ins ssa.Instruction) bool {
+					if st, isS := ins.(*ssa.Store); isS && strip(st.Val, false) == strip(rv[0], false) {
+						if fa, isF := st.Addr.(*ssa.FieldAddr); isF {
+							if f2, _, ok2 := fieldOf(fa); ok2 && f2.Type != nil && types.Identical(f2.Type, T) {
+								fr, ok = f2, true
+							}
+						}
+					}
+					return true
+				})
+			}
 			if !ok || !types.Identical(fr.Type, T) {
 				single = false
 				return false
@@ -308,25 +321,37 @@ func runC18(p *Prog, l *Ledger) {
 				}
 				return true
 			})
-			flag := strip(rv[1], false)
+			flag := strip(pa.Resolve(rv[1], len(pa.Blocks)-1), false)
+			storeEq := func(st *ssa.Store) bool {
+				return pa.HoldsRel(-1, func(r Rel) bool {
+					if r.Op != token.EQL {
+						return false
+					}
+					fr, _, isF := loadedField(strip(r.Y, false))
+					return strip(r.X, false) == strip(st.Val, false) && isF && sameField(fr, *valF)
+				})
+			}
 			if b, isC := constBool(flag); isC {
 				if b {
 					return true
 				}
 				// false: every store on the path must have been established equal to the old value
 				for _, st := range stores {
-					eq := pa.HoldsRel(-1, func(r Rel) bool {
-						if r.Op != token.EQL {
-							return false
-						}
-						fr, _, isF := loadedField(strip(r.Y, false))
-						return strip(r.X, false) == strip(st.Val, false) && isF && sameField(fr, *valF)
-					})
-					if !eq {
+					if !storeEq(st) {
 						bad = append(bad, fmt.Sprintf("%s: the value is stored but the flag is false on a path that has not established new == old", p.At(st)))
 					}
 				}
 				return len(bad) < 3
+			}
+			// the path established that what it stores equals the old value: the value cannot change here, any flag will do
+			allEq := true
+			for _, st := range stores {
+				if !storeEq(st) {
+					allEq = false
+				}
+			}
+			if allEq {
+				return true
 			}
 			bo, isB := flag.(*ssa.BinOp)
 			if !isB {
